@@ -268,7 +268,9 @@ def run_unit(unit, repo='/repo', tier='quick', seed=0):
             kname = 'precondition-of-%s' % callee if callee != '?' and callee != fn else 'precondition'
         else:
             kname = kind
-        fails.append({'function': fn, 'kind': kname, 'site': site, 'clause_at': origin(line), 'clause': clause[:300],
+        owner_sp = (sec[0] if (kind in ('precondition', 'postcondition') and sec) else (prim[0] if prim else None))
+        site_text = owner_sp['text'][0]['text'].strip()[:200] if owner_sp and owner_sp.get('text') else ''
+        fails.append({'function': fn, 'kind': kname, 'site': site, 'site_text': site_text, 'clause_at': origin(line), 'clause': clause[:300],
                       'message': msg.split('\n')[0][:300], 'rendered': d.get('rendered', '')[:4000],
                       'obligation': '%s::%s::%s@%s' % (unit, fn, kname, site)})
     if js == {} and not r['diags']:
